@@ -466,6 +466,29 @@ static void u_pool_add_sched(int v)
     }
 }
 
+/* the automatic-scheduler-into-user-pool case as a scenario of its own (it
+ * has its own config so that a finding there is told apart from the rest) */
+static void p_add_sched3(int v)
+{
+    (void)v;
+    p_add_sched(3);
+}
+static int c_pool_add_sched3(int v)
+{
+    (void)v;
+    return c_pool_add_sched(3);
+}
+static void af_add_sched3(int v)
+{
+    (void)v;
+    af_add_sched(3);
+}
+static void u_pool_add_sched3(int v)
+{
+    (void)v;
+    u_pool_add_sched(3);
+}
+
 /* ---------------------------------------------------------- threads */
 
 static void cb_mig(ABT_thread t, void *arg)
@@ -1270,142 +1293,146 @@ static const scen_t scens[] = {
     /* name, api, quick, flags, env, nvariants, maxdrain, prep, call, use,
      * after_fail */
     /* --- ABT_init */
-    { "init:std", "ABT_init", Q, F_INIT, ENV_STD, 1, 0, NULL, NULL, NULL, NULL },
-    { "init:mmap_pages", "ABT_init", Q, F_INIT | F_FALLBACK, ENV_MMAP, 1, 0,
+    { "init", "init:std", "ABT_init", Q, F_INIT, ENV_STD, 1, 0, NULL, NULL, NULL, NULL },
+    { "init", "init:mmap_pages", "ABT_init", Q, F_INIT | F_FALLBACK, ENV_MMAP, 1, 0,
       NULL, NULL, NULL, NULL },
-    { "init:hugepage_thp", "ABT_init", 0, F_INIT | F_FALLBACK, ENV_HUGE, 1, 0,
+    { "init:other-environments", "init:hugepage_thp", "ABT_init", 0, F_INIT | F_FALLBACK, ENV_HUGE, 1, 0,
       NULL, NULL, NULL, NULL },
-    { "init:stack_guard", "ABT_init", 0, F_INIT, ENV_GUARD, 1, 0, NULL, NULL,
+    { "init:other-environments", "init:stack_guard", "ABT_init", 0, F_INIT, ENV_GUARD, 1, 0, NULL, NULL,
       NULL, NULL },
-    { "init:keytable64", "ABT_init", 0, F_INIT, ENV_KT64, 1, 0, NULL, NULL,
+    { "init:other-environments", "init:keytable64", "ABT_init", 0, F_INIT, ENV_KT64, 1, 0, NULL, NULL,
       NULL, NULL },
     /* --- execution streams */
-    { "xstream_create{null,sched,with_rank}", "ABT_xstream_create", Q, 0,
+    { "streams", "xstream_create{null,sched,with_rank}", "ABT_xstream_create", Q, 0,
       ENV_STD, 3, 2, NULL, c_xstream_create, u_xstream, NULL },
-    { "xstream_create:mmap_pages", "ABT_xstream_create", 0, F_FALLBACK,
+    { "streams+units:other-environments", "xstream_create:mmap_pages", "ABT_xstream_create", 0, F_FALLBACK,
       ENV_MMAP, 1, 1, NULL, c_xstream_create, u_xstream, NULL },
-    { "xstream_create:max_xstreams_warning", "ABT_xstream_create", 0,
+    { "streams+units:other-environments", "xstream_create:max_xstreams_warning", "ABT_xstream_create", 0,
       F_FALLBACK | F_NODRY, ENV_LOG, 1, 0, NULL, c_xstream_create, u_xstream, NULL },
-    { "xstream_create_basic{basic,prio,randws,wait,pools}",
+    { "streams", "xstream_create_basic{basic,prio,randws,wait,pools}",
       "ABT_xstream_create_basic", Q, 0, ENV_STD, 5, 1, p_one_pool,
       c_xstream_create_basic, u_xstream_basic, af_one_pool },
-    { "xstream_revive", "ABT_xstream_revive", Q, 0, ENV_STD, 1, 0, p_joined_xs,
+    { "streams", "xstream_revive", "ABT_xstream_revive", Q, 0, ENV_STD, 1, 0, p_joined_xs,
       c_xstream_revive, u_xstream_revive, af_joined_xs },
-    { "set_main_sched:self{null,spare,upool}", "ABT_xstream_set_main_sched", Q,
+    { "streams", "set_main_sched:self{null,spare,upool}", "ABT_xstream_set_main_sched", Q,
       F_UNIT, ENV_STD, 3, 1, p_set_main_sched, c_set_main_sched, u_set_main_sched,
       NULL },
-    { "set_main_sched_basic:self{auto,upool,pool}",
+    { "streams", "set_main_sched_basic:self{auto,upool,pool}",
       "ABT_xstream_set_main_sched_basic", Q, F_UNIT, ENV_STD, 3, 1,
       p_set_main_sched_basic, c_set_main_sched_basic, u_set_main_sched_basic,
       af_set_main_sched_basic },
-    { "set_main_sched:terminated{null,basic}", "ABT_xstream_set_main_sched", 0,
+    { "streams+units:other-environments", "set_main_sched:terminated{null,basic}", "ABT_xstream_set_main_sched", 0,
       0, ENV_STD, 2, 0, p_joined_xs, c_set_main_sched_term,
       u_set_main_sched_term, af_joined_xs },
     /* --- schedulers */
-    { "sched_create{user,basic,prio,randws,wait,nopools}", "ABT_sched_create",
+    { "scheds+pools", "sched_create{user,basic,prio,randws,wait,nopools}", "ABT_sched_create",
       Q, 0, ENV_STD, 6, 0, p_one_pool, c_sched_create, u_sched_create,
       af_sched_create },
-    { "sched_config_create{empty,4vars}", "ABT_sched_config_create", Q, 0,
+    { "scheds+pools", "sched_config_create{empty,4vars}", "ABT_sched_config_create", Q, 0,
       ENV_STD, 2, 0, NULL, c_sched_config_create, u_sched_config, NULL },
-    { "sched_config_set{new,overwrite}", "ABT_sched_config_set", Q, 0, ENV_STD,
+    { "scheds+pools", "sched_config_set{new,overwrite}", "ABT_sched_config_set", Q, 0, ENV_STD,
       2, 0, NULL, c_sched_config_set, u_sched_config_set, NULL },
     /* --- pools */
-    { "pool_create_basic{fifo,fifo_wait,randws}", "ABT_pool_create_basic", Q, 0,
+    { "scheds+pools", "pool_create_basic{fifo,fifo_wait,randws}", "ABT_pool_create_basic", Q, 0,
       ENV_STD, 3, 0, NULL, c_pool_create_basic, u_pool, NULL },
-    { "pool_create{user_def,config,old_def}", "ABT_pool_create", Q, 0, ENV_STD,
+    { "scheds+pools", "pool_create{user_def,config,old_def}", "ABT_pool_create", Q, 0, ENV_STD,
       3, 0, NULL, c_pool_create, u_pool, NULL },
-    { "pool_config_create", "ABT_pool_config_create", Q, 0, ENV_STD, 1, 0, NULL,
+    { "scheds+pools", "pool_config_create", "ABT_pool_config_create", Q, 0, ENV_STD, 1, 0, NULL,
       c_pool_config_create, u_pool_config, NULL },
-    { "pool_config_set{new,overwrite}", "ABT_pool_config_set", Q, 0, ENV_STD, 2,
+    { "scheds+pools", "pool_config_set{new,overwrite}", "ABT_pool_config_set", Q, 0, ENV_STD, 2,
       0, NULL, c_pool_config_set, u_pool_config_set, NULL },
-    { "pool_user_def_create", "ABT_pool_user_def_create", Q, 0, ENV_STD, 1, 0,
+    { "scheds+pools", "pool_user_def_create", "ABT_pool_user_def_create", Q, 0, ENV_STD, 1, 0,
       NULL, c_pool_user_def_create, u_pool_user_def, NULL },
-    { "pool_add_sched{p0,upool,auto+p0,auto+upool}", "ABT_pool_add_sched", Q,
-      F_UNIT, ENV_STD, 4, 2, p_add_sched, c_pool_add_sched, u_pool_add_sched, af_add_sched },
+    { "scheds+pools", "pool_add_sched{p0,upool,auto+p0}", "ABT_pool_add_sched", Q,
+      F_UNIT, ENV_STD, 3, 2, p_add_sched, c_pool_add_sched, u_pool_add_sched,
+      af_add_sched },
+    { "pool_add_sched:automatic->upool", "pool_add_sched{auto+upool}",
+      "ABT_pool_add_sched", Q, F_UNIT, ENV_STD, 1, 2, p_add_sched3,
+      c_pool_add_sched3, u_pool_add_sched3, af_add_sched3 },
     /* --- work units */
-    { "thread_create{p0,p1,upool,unnamed}", "ABT_thread_create", Q, F_UNIT, ENV_STD,
+    { "unit-creation", "thread_create{p0,p1,upool,unnamed}", "ABT_thread_create", Q, F_UNIT, ENV_STD,
       4, 2, NULL, c_thread_create, u_thread_create, NULL },
-    { "thread_create:attr{dflt,size,stack,cb,size+cb}", "ABT_thread_create", Q,
+    { "unit-creation", "thread_create:attr{dflt,size,stack,cb,size+cb}", "ABT_thread_create", Q,
       0, ENV_STD, 5, 3, p_thread_attr, c_thread_create_attr,
       u_thread_create_attr, af_attr },
-    { "thread_create:attr+upool{dflt,size,stack,cb,size+cb}",
+    { "streams+units:other-environments", "thread_create:attr+upool{dflt,size,stack,cb,size+cb}",
       "ABT_thread_create", 0, F_UNIT, ENV_STD, 5, 3, p_thread_attr,
       c_thread_create_attr_upool, u_thread_create_attr_upool, af_attr },
-    { "thread_create:attr:keytable64{..}", "ABT_thread_create", 0, 0, ENV_KT64,
+    { "streams+units:other-environments", "thread_create:attr:keytable64{..}", "ABT_thread_create", 0, 0, ENV_KT64,
       5, 1, p_thread_attr, c_thread_create_attr, u_thread_create_attr, af_attr },
-    { "thread_create:stack_guard{p0,p1,upool,unnamed}", "ABT_thread_create", 0,
+    { "streams+units:other-environments", "thread_create:stack_guard{p0,p1,upool,unnamed}", "ABT_thread_create", 0,
       0, ENV_GUARD, 4, 1, NULL, c_thread_create, u_thread_create, NULL },
-    { "thread_create:mmap_pages{p0,p1,upool,unnamed}", "ABT_thread_create", 0,
+    { "streams+units:other-environments", "thread_create:mmap_pages{p0,p1,upool,unnamed}", "ABT_thread_create", 0,
       F_FALLBACK, ENV_MMAP, 4, 1, NULL, c_thread_create, u_thread_create, NULL },
-    { "thread_create:external{p0,p1,upool,unnamed}", "ABT_thread_create", Q,
+    { "unit-creation", "thread_create:external{p0,p1,upool,unnamed}", "ABT_thread_create", Q,
       F_EXT, ENV_STD, 4, 0, NULL, c_thread_create, u_thread_create, NULL },
-    { "thread_create:attr:external{..}", "ABT_thread_create", 0, F_EXT, ENV_STD,
+    { "streams+units:other-environments", "thread_create:attr:external{..}", "ABT_thread_create", 0, F_EXT, ENV_STD,
       5, 0, p_thread_attr, c_thread_create_attr, u_thread_create_attr, af_attr },
-    { "thread_create_to{dflt,attr}", "ABT_thread_create_to", Q, 0, ENV_STD, 2, 2,
+    { "unit-creation", "thread_create_to{dflt,attr}", "ABT_thread_create_to", Q, 0, ENV_STD, 2, 2,
       p_create_to, c_thread_create_to, u_thread_create_to, af_create_to },
-    { "thread_create_on_xstream{es1,es0}", "ABT_thread_create_on_xstream", Q, 0,
+    { "unit-creation", "thread_create_on_xstream{es1,es0}", "ABT_thread_create_on_xstream", Q, 0,
       ENV_STD, 2, 1, NULL, c_thread_create_on_xstream, u_thread_named, NULL },
-    { "task_create{p0,p1,upool,unnamed,on_xstream}", "ABT_task_create", Q, F_UNIT,
+    { "unit-creation", "task_create{p0,p1,upool,unnamed,on_xstream}", "ABT_task_create", Q, F_UNIT,
       ENV_STD, 5, 2, NULL, c_task_create, u_task_create, NULL },
-    { "task_create:external{..}", "ABT_task_create", 0, F_EXT, ENV_STD, 5, 0,
+    { "streams+units:other-environments", "task_create:external{..}", "ABT_task_create", 0, F_EXT, ENV_STD, 5, 0,
       NULL, c_task_create, u_task_create, NULL },
-    { "revive->upool{thread,task,revive_to}", "ABT_thread_revive", Q, F_UNIT,
+    { "unit-creation", "revive->upool{thread,task,revive_to}", "ABT_thread_revive", Q, F_UNIT,
       ENV_STD, 3, 0, NULL, c_revive, u_revive, NULL },
-    { "migrate{to_pool,to_sched,to_xstream,uunit,blocked}",
+    { "unit-state", "migrate{to_pool,to_sched,to_xstream,uunit,blocked}",
       "ABT_thread_migrate_to", Q, 0, ENV_STD, 5, 3, NULL, c_migrate, u_migrate,
       NULL },
-    { "migrate:keytable64{..}", "ABT_thread_migrate_to", 0, 0, ENV_KT64, 5, 1,
+    { "unit-state:other-environments", "migrate:keytable64{..}", "ABT_thread_migrate_to", 0, 0, ENV_KT64, 5, 1,
       NULL, c_migrate, u_migrate, NULL },
-    { "migrate:external{..}", "ABT_thread_migrate_to", 0, F_EXT, ENV_STD, 5, 0,
+    { "unit-state:other-environments", "migrate:external{..}", "ABT_thread_migrate_to", 0, F_EXT, ENV_STD, 5, 0,
       NULL, c_migrate, u_migrate, NULL },
-    { "set_callback{queued,uunit,blocked}", "ABT_thread_set_callback", Q, 0,
+    { "unit-state", "set_callback{queued,uunit,blocked}", "ABT_thread_set_callback", Q, 0,
       ENV_STD, 3, 3, NULL, c_set_callback, NULL, NULL },
-    { "set_specific{new_table,chain,key_set,blocked,self}",
+    { "unit-state", "set_specific{new_table,chain,key_set,blocked,self}",
       "ABT_thread_set_specific", Q, 0, ENV_STD, 5, 3, p_keys, c_set_specific,
       u_set_specific, af_keys },
-    { "set_specific:keytable64{..}", "ABT_thread_set_specific", Q, 0, ENV_KT64,
+    { "unit-state", "set_specific:keytable64{..}", "ABT_thread_set_specific", Q, 0, ENV_KT64,
       5, 1, p_keys, c_set_specific, u_set_specific, af_keys },
-    { "set_specific:external{new_table,chain}", "ABT_thread_set_specific", 0,
+    { "unit-state:other-environments", "set_specific:external{new_table,chain}", "ABT_thread_set_specific", 0,
       F_EXT, ENV_STD, 2, 0, p_keys, c_set_specific, u_set_specific, af_keys },
-    { "set_associated_pool->upool{thread,push_thread,push_unit,terminated}",
+    { "unit-state", "set_associated_pool->upool{thread,push_thread,push_unit,terminated}",
       "ABT_thread_set_associated_pool", Q, F_UNIT, ENV_STD, 4, 0, p_popped,
       c_set_assoc, u_set_assoc, af_popped },
-    { "pool_push_threads->upool{2,mixed,66}", "ABT_pool_push_threads", Q, F_UNIT, ENV_STD, 3, 0,
+    { "unit-state", "pool_push_threads->upool{2,mixed,66}", "ABT_pool_push_threads", Q, F_UNIT, ENV_STD, 3, 0,
       p_push_many, c_push_threads, u_push_threads, af_push_threads },
-    { "self_schedule->upool", "ABT_self_schedule", Q, F_UNIT, ENV_STD, 1, 0,
+    { "unit-state", "self_schedule->upool", "ABT_self_schedule", Q, F_UNIT, ENV_STD, 1, 0,
       p_popped, c_self_schedule, u_self_schedule, af_popped },
-    { "self_schedule:pending_migration->upool", "ABT_self_schedule", Q,
+    { "unit-state", "self_schedule:pending_migration->upool", "ABT_self_schedule", Q,
       F_FALLBACK | F_UNIT, ENV_STD, 1, 0, p_pending_migration,
       c_schedule_migrating, u_schedule_migrating, NULL },
-    { "thread_get_attr{ult,primary,blocked}", "ABT_thread_get_attr", Q, 0, ENV_STD,
+    { "unit-state", "thread_get_attr{ult,primary,blocked}", "ABT_thread_get_attr", Q, 0, ENV_STD,
       3, 0, NULL, c_get_attr, u_get_attr, NULL },
     /* --- synchronisation objects, keys, timers, attributes */
-    { "mutex_create{plain,attr}", "ABT_mutex_create", Q, 0, ENV_STD, 2, 0, NULL,
+    { "sync-objects", "mutex_create{plain,attr}", "ABT_mutex_create", Q, 0, ENV_STD, 2, 0, NULL,
       c_mutex_create, u_mutex, NULL },
-    { "mutex_attr_create{create,get_attr}", "ABT_mutex_attr_create", Q, 0,
+    { "sync-objects", "mutex_attr_create{create,get_attr}", "ABT_mutex_attr_create", Q, 0,
       ENV_STD, 2, 0, NULL, c_mutex_attr_create, u_mutex_attr, NULL },
-    { "cond_create", "ABT_cond_create", Q, 0, ENV_STD, 1, 0, NULL,
+    { "sync-objects", "cond_create", "ABT_cond_create", Q, 0, ENV_STD, 1, 0, NULL,
       c_cond_create, u_cond, NULL },
-    { "rwlock_create", "ABT_rwlock_create", Q, 0, ENV_STD, 1, 0, NULL,
+    { "sync-objects", "rwlock_create", "ABT_rwlock_create", Q, 0, ENV_STD, 1, 0, NULL,
       c_rwlock_create, u_rwlock, NULL },
-    { "eventual_create{0,24}", "ABT_eventual_create", Q, 0, ENV_STD, 2, 0, NULL,
+    { "sync-objects", "eventual_create{0,24}", "ABT_eventual_create", Q, 0, ENV_STD, 2, 0, NULL,
       c_eventual_create, u_eventual, NULL },
-    { "future_create{plain,cb}", "ABT_future_create", Q, 0, ENV_STD, 2, 0, NULL,
+    { "sync-objects", "future_create{plain,cb}", "ABT_future_create", Q, 0, ENV_STD, 2, 0, NULL,
       c_future_create, u_future, NULL },
-    { "barrier_create", "ABT_barrier_create", Q, 0, ENV_STD, 1, 0, NULL,
+    { "sync-objects", "barrier_create", "ABT_barrier_create", Q, 0, ENV_STD, 1, 0, NULL,
       c_barrier_create, u_barrier, NULL },
-    { "xstream_barrier_create", "ABT_xstream_barrier_create", Q, 0, ENV_STD, 1,
+    { "sync-objects", "xstream_barrier_create", "ABT_xstream_barrier_create", Q, 0, ENV_STD, 1,
       0, NULL, c_xstream_barrier_create, u_xstream_barrier, NULL },
-    { "timer_create{create,dup}", "ABT_timer_create", Q, 0, ENV_STD, 2, 0, NULL,
+    { "sync-objects", "timer_create{create,dup}", "ABT_timer_create", Q, 0, ENV_STD, 2, 0, NULL,
       c_timer_create, u_timer, NULL },
-    { "key_create{plain,dtor}", "ABT_key_create", Q, 0, ENV_STD, 2, 0, NULL,
+    { "sync-objects", "key_create{plain,dtor}", "ABT_key_create", Q, 0, ENV_STD, 2, 0, NULL,
       c_key_create, u_key, NULL },
-    { "thread_attr_create", "ABT_thread_attr_create", Q, 0, ENV_STD, 1, 0, NULL,
+    { "attr+info", "thread_attr_create", "ABT_thread_attr_create", Q, 0, ENV_STD, 1, 0, NULL,
       c_thread_attr_create, u_thread_attr, NULL },
     /* --- info */
-    { "info_print{stacks_in_pool,stacks_in_upool,xstreams,config,pool}",
+    { "attr+info", "info_print{stacks_in_pool,stacks_in_upool,xstreams,config,pool}",
       "ABT_info_print", Q, 0, ENV_STD, 5, 0, NULL, c_info_stacks, NULL, NULL },
-    { "info_trigger_print_all_thread_stacks+yield",
+    { "attr+info", "info_trigger_print_all_thread_stacks+yield",
       "ABT_info_trigger_print_all_thread_stacks", Q, F_FALLBACK, ENV_STD, 1, 0,
       NULL, c_info_trigger, NULL, NULL },
 };
